@@ -124,10 +124,10 @@ func loadProgram(pkgDirs []string) (*Program, error) {
 }
 
 type harnessRef struct {
-	dir  string
-	name string
-	fn   *ssa.Function
-	prop string
+	dir          string
+	name         string
+	fn           *ssa.Function
+	prop         string
 	thoroughOnly bool
 }
 
@@ -414,20 +414,78 @@ type replayOutcome struct {
 }
 
 // runReplays runs every replay file of one harness package natively and returns the outcomes by file.
+// raceLabel marks the replay files that must run under the race detector: violations of the
+// concurrent-instances assertion (the file name carries the label).
+const raceLabel = "concurrent-instances-share-no-written-memory"
+
+// raceWitnesses (thorough tier): the path witnesses of the concurrent-instances harnesses are replayed
+// under the race detector as well, so a race the engine did not predict shows up as a mismatch.
+var raceWitnesses bool
+
 func runReplays(dir string, files []string) (map[string]*replayOutcome, string, error) {
+	var plain, raced []string
+	for _, f := range files {
+		if b := filepath.Base(f); strings.Contains(b, raceLabel) || (raceWitnesses && strings.Contains(b, "_C18_Concurrent_")) {
+			raced = append(raced, f)
+		} else {
+			plain = append(plain, f)
+		}
+	}
+	res := map[string]*replayOutcome{}
+	var outs []string
+	var firstErr error
+	for i, group := range [][]string{plain, raced} {
+		if len(group) == 0 {
+			continue
+		}
+		r, out, err := runReplayGroup(dir, group, i == 1)
+		for k, v := range r {
+			res[k] = v
+		}
+		outs = append(outs, out)
+		if err != nil && firstErr == nil {
+			firstErr = err
+		}
+	}
+	return res, strings.Join(outs, "\n"), firstErr
+}
+
+func runReplayGroup(dir string, files []string, race bool) (map[string]*replayOutcome, string, error) {
 	outDir := outBase
 	os.MkdirAll(outDir, 0o755)
-	ovPath := filepath.Join(outDir, fmt.Sprintf("overlay.%d.json", os.Getpid()))
+	tag := fmt.Sprintf("%d.%s", os.Getpid(), dir)
+	if race {
+		tag += ".race"
+	}
+	ovPath := filepath.Join(outDir, "overlay."+tag+".json")
 	if err := writeOverlayJSON(ovPath); err != nil {
 		return nil, "", err
 	}
 	defer os.Remove(ovPath)
-	listPath := filepath.Join(outDir, fmt.Sprintf("replaylist.%d.%s.txt", os.Getpid(), dir))
+	listPath := filepath.Join(outDir, "replaylist."+tag+".txt")
 	os.WriteFile(listPath, []byte(strings.Join(files, "\n")), 0o644)
 	defer os.Remove(listPath)
-	cmd := exec.Command("go", "test", "-vet=off", "-count=1", "-overlay", ovPath, "-run", "^TestVerifReplay$", "-timeout", "90m", "./"+harnessDirs[dir])
+	args := []string{"test", "-vet=off", "-count=1", "-overlay", ovPath, "-run", "^TestVerifReplay$", "-timeout", "90m"}
+	env := append(append(os.Environ(), goEnv...), "VERIF_REPLAY_LIST="+listPath)
+	if race {
+		// the detector's reports go to files the harness runtime inspects (verifrt.Raced)
+		logPath := filepath.Join(outDir, "racelog."+tag)
+		old, _ := filepath.Glob(logPath + ".*")
+		for _, o := range old {
+			os.Remove(o)
+		}
+		defer func() {
+			left, _ := filepath.Glob(logPath + ".*")
+			for _, o := range left {
+				os.Remove(o)
+			}
+		}()
+		args = append(args, "-race")
+		env = append(env, "GORACE=log_path="+logPath, "CGO_ENABLED=1")
+	}
+	cmd := exec.Command("go", append(args, "./"+harnessDirs[dir])...)
 	cmd.Dir = repoDir
-	cmd.Env = append(append(os.Environ(), goEnv...), "VERIF_REPLAY_LIST="+listPath)
+	cmd.Env = env
 	out, err := cmd.CombinedOutput()
 	res := map[string]*replayOutcome{}
 	for _, f := range files {
